@@ -297,4 +297,82 @@ theorem wtLoop_none_ends_with_check (pid : Nat) (det : Bool) (dl delay : Nat) (r
     unfold wtLoop
     cases r <;> simp_all
 
+/-- every nap directly follows a clock reading `now` that is still before the deadline, is not empty (no busy-waiting
+    by zero-length naps) and does not reach past the deadline (`nap ≤ deadline - now`) -/
+def NapsOK (dl : Nat) : List (Call × Resp) → Prop
+  | [] => True
+  | (.clock, .time now) :: (.sleep x, _) :: l => now < dl ∧ 0 < x ∧ x ≤ dl - now ∧ NapsOK dl l
+  | (.sleep _, _) :: _ => False
+  | _ :: l => NapsOK dl l
+
+theorem wtLoop_naps (pid : Nat) (det : Bool) (dl delay : Nat) (rs : List Resp) (hd : 0 < delay) :
+    NapsOK dl (wtLoop pid det dl delay rs).log := by
+  induction delay, rs using wtLoop.induct pid dl with
+  | case1 => unfold wtLoop; simp [NapsOK]
+  | case2 delay rs => unfold wtLoop; simp [NapsOK]
+  | case3 delay e rs he => unfold wtLoop; simp [he, NapsOK]
+  | case4 delay w rs => unfold wtLoop; simp [NapsOK]
+  | case5 delay po w hp => unfold wtLoop; simp [hp, NapsOK]
+  | case6 delay po w hp now rs2 hd' => unfold wtLoop; simp [hp, hd', NapsOK]
+  | case7 delay po w hp now hd' =>
+    unfold wtLoop
+    simp only [hp, hd', if_false, NapsOK]
+    refine ⟨by omega, by omega, by omega, trivial⟩
+  | case8 delay po w hp now hd' r3 rs3 ih =>
+    unfold wtLoop
+    simp only [hp, hd', if_false, Out.pre, List.cons_append, List.nil_append, NapsOK]
+    have h100 : 0 < 100 * ms := by simp [ms]
+    refine ⟨by omega, by omega, by omega, ih (by omega)⟩
+  | case9 delay po w hp r2 rs2 hr =>
+    unfold wtLoop
+    cases r2 <;> simp_all [NapsOK]
+  | case10 delay r rs h1 h2 =>
+    unfold wtLoop
+    cases r <;> simp_all [NapsOK]
+
+/-- bounded latency: every clock reading is at most `J` later than the previous reading plus the naps taken since -/
+def ClockUB (J : Nat) : Nat → List (Call × Resp) → Prop
+  | _, [] => True
+  | cur, (.clock, .time t) :: l => t ≤ cur + J ∧ ClockUB J t l
+  | cur, (.sleep x, _) :: l => ClockUB J (cur + x) l
+  | cur, _ :: l => ClockUB J cur l
+
+theorem wtLoop_readings (pid : Nat) (det : Bool) (dl delay J : Nat) (rs : List Resp) (hd : 0 < delay) :
+    ∀ cur, cur ≤ dl → ClockUB J cur (wtLoop pid det dl delay rs).log →
+      ∀ t, (Call.clock, Resp.time t) ∈ (wtLoop pid det dl delay rs).log → t ≤ dl + J := by
+  induction delay, rs using wtLoop.induct pid dl with
+  | case1 => unfold wtLoop; simp
+  | case2 delay rs => unfold wtLoop; simp
+  | case3 delay e rs he => unfold wtLoop; simp [he]
+  | case4 delay w rs => unfold wtLoop; simp
+  | case5 delay po w hp => unfold wtLoop; simp [hp]
+  | case6 delay po w hp now rs2 hd' =>
+    unfold wtLoop
+    simp only [hp, hd', if_false, if_true]
+    intro cur hc hub t ht
+    simp [ClockUB] at hub ht
+    omega
+  | case7 delay po w hp now hd' =>
+    unfold wtLoop
+    simp only [hp, hd', if_false]
+    intro cur hc hub t ht
+    simp [ClockUB] at hub ht
+    omega
+  | case8 delay po w hp now hd' r3 rs3 ih =>
+    unfold wtLoop
+    simp only [hp, hd', if_false, Out.pre, List.cons_append, List.nil_append]
+    intro cur hc hub t ht
+    simp only [ClockUB] at hub
+    have h100 : 0 < 100 * ms := by simp [ms]
+    simp only [List.mem_cons, Prod.mk.injEq, reduceCtorEq, false_and, Resp.time.injEq, true_and, false_or] at ht
+    rcases ht with rfl | ht
+    · omega
+    · exact ih (by omega) (now + min delay (dl - now)) (by omega) hub.2 t ht
+  | case9 delay po w hp r2 rs2 hr =>
+    unfold wtLoop
+    cases r2 <;> simp_all
+  | case10 delay r rs h1 h2 =>
+    unfold wtLoop
+    cases r <;> simp_all
+
 end Life
